@@ -108,6 +108,8 @@ def run_property(prop, tier, seed):
     mod = importlib.import_module("props." + prop)
     from contracts import common as _common
     _common.warm_shape_cache()
+    if not os.environ.get("G3DVC_NO_HISTORY"):
+        _common.benign_history()
     known = load_known()
     groups = [g for g in mod.groups(tier)]
     bounded = mod.bounded(tier, seed) if hasattr(mod, "bounded") else []
@@ -138,6 +140,7 @@ def run_property(prop, tier, seed):
     probes = probes_ok = 0
     probe_state = {}
     replay_jobs = []
+    void = {}
     gmap = {g.name: g for g in groups}
 
     for g in groups:
@@ -168,6 +171,10 @@ def run_property(prop, tier, seed):
             if ob["status"] == "proved":
                 n_dis += 1
                 backends[ob["backend"]] += 1
+            elif ob["status"] == "refuted" and g.callee_for:
+                void.setdefault(g.name, []).append(ob["label"])
+                undecided.append((g.name, ob["label"], "callee-contract clause refuted (%s): the proofs of %s that rest on it are void; their clauses are searched natively" % (
+                    json.dumps(ob.get("model", {}), default=str)[:160], ", ".join(g.callee_for))))
             elif ob["status"] == "refuted":
                 replay_jobs.append((g, ob))
             else:
@@ -184,8 +191,12 @@ def run_property(prop, tier, seed):
     # native replay; finding none leaves the clause undecided)
     und_by_group = {}
     for gname, label, why in undecided:
-        if gname in gmap and label != "(whole group)":
+        if gname in gmap and label != "(whole group)" and not gmap[gname].callee_for:
             und_by_group.setdefault(gname, []).append(label)
+    for cg, labs in void.items():
+        for dn in gmap[cg].callee_for:
+            if dn in gmap:
+                und_by_group[dn] = ["harness completed (all clauses: callee contract refuted)"]
     if und_by_group:
         sjobs = [((gn,), _random_search, (("props." + prop, gn, (None if any(l.startswith("harness completed") for l in labs) else labs), seed),), 180)
                  for gn, labs in und_by_group.items()]
@@ -300,7 +311,11 @@ def run_property(prop, tier, seed):
 
     for l in known_lines:
         print(l)
+    seen_u = set()
     for a, b, c in undecided:
+        if (a, b) in seen_u:
+            continue
+        seen_u.add((a, b))
         print("UNDECIDED property=%s obligation=%s/%s %s" % (prop, a, b, c.replace("\n", " ")[:200]))
     for a, b in errors:
         print("ENGINE-ERROR property=%s group=%s %s" % (prop, a, b.replace("\n", " | ")[:600]))
